@@ -15,7 +15,14 @@ def workload(seed, big):
     pk = ["create table t(a int primary key, b int, c varchar)", "create table s(a int primary key, b int)",
           f"insert into t values {rows_sql(1100)}", f"insert into t values {rows_sql(1100, 1100)}",
           "insert into s values " + ", ".join(f"({i}, {i * 2})" for i in range(0, 40))]
+    # a sparse side against a dense one (merge join on disk: whole runs of key groups without a partner)
+    pk_sparse = ["create table t(a int primary key, b int, c varchar)", "create table s(a int primary key, b int)",
+                 f"insert into t values {rows_sql(1100)}", f"insert into t values {rows_sql(1100, 1100)}",
+                 "insert into s values " + ", ".join(f"({i * 100}, {i})" for i in range(0, 22))]
     stmts = [
+        (pk_sparse, "select s.a, t.b from s join t on s.a = t.a"),
+        (pk_sparse, "select s.a, t.b from s left join t on s.a = t.a"),
+        (pk_sparse, "select t.a, s.b from t join s on t.a = s.a"),
         (base, "select a, b from t where b < 3"),
         (base, "select a + b, c from t order by a desc"),
         (base, "select a from t limit 5 offset 2"),
